@@ -287,6 +287,12 @@ func report(a RunArgs, eng Engine, engName string, info Info, results []*Result,
 	fmt.Printf("[%s %s seed=%d engine=%s] cases=%d evaluations=%d distinct_nontrivial=%d cells=%d violations=%d known=%d inconclusive=%d wall=%.1fs\n",
 		a.Prop, a.Tier, a.Seed, engName, len(results), evals, len(distinct), len(cells), len(sigOrder), len(knownSeen), len(inconcl), wall)
 	if len(vlines) > 0 {
+		for i, m := range inconcl {
+			if i >= 3 {
+				break
+			}
+			fmt.Printf("  (also inconclusive: %s)\n", firstLines(m, 6))
+		}
 		for _, l := range vlines {
 			fmt.Println(l)
 		}
